@@ -263,3 +263,37 @@ def lazy_linalg_programs(seed, n, syms=gen.SYMS, tids=None):
         steps.append(rel("same", "C09.twin.solve_residual", "AxL", "AxS"))
         progs.append({"tid": tids(), "inputs": inputs, "steps": steps})
     return progs
+
+
+def dtype_programs(seed, n, syms=gen.SYMS, kinds=("abelian", "fermionic"), tids=None):
+    """C20: every decomposition in the four element types - matrices with charges of size one (degenerate
+    1x1 sectors) and larger ones, hermitian matrices stored with a complex element type, truncations."""
+    tids = tids or gen.Tids()
+    progs = []
+    for i in range(n):
+        rng = gen.rng_for(seed, "linalg-dtype", i)
+        sym = syms[i % len(syms)]
+        kind = kinds[(i // len(syms)) % len(kinds)]
+        dtype = gen.DTYPES[(i // (len(syms) * len(kinds))) % len(gen.DTYPES)]
+        x = matrix(rng, sym, kind, pattern=rng.choice(["monomial", "monomial_deficient"]), dtype=dtype, maxd=3, sparse=0.2)
+        # at least one charge of size one and, when there are several, one larger
+        for ix in x["ix"]:
+            ix["cm"][0]["d"] = 1
+            if len(ix["cm"]) > 1:
+                ix["cm"][-1]["d"] = rng.randint(2, 3)
+        h = matrix(rng, sym, kind, hermitian=True, dtype=dtype, start=rng.randint(1, 5), maxd=3)
+        h["ix"][0]["cm"][0]["d"] = 1
+        h["ix"][1] = gen.conj_index(h["ix"][0])
+        steps = []
+        ent = rng.choice(["symmray", "autoray"])
+        steps.append({"op": "qr", "in": ["x"], "out": ["q", "r"], "args": {"stabilized": rng.random() < 0.5}, "entry": ent})
+        steps.append({"op": "svd", "in": ["x"], "out": ["u", "s", "vh"], "args": {}, "entry": ent})
+        steps.append({"op": "eigh", "in": ["h"], "out": ["w", "v"], "args": {}, "entry": ent})
+        for k, a in enumerate(({"max_bond": 2, "absorb": "none"}, {"cutoff": [1, 2], "cutoff_mode": 1, "absorb": 0},
+                               {"max_bond": 1, "absorb": -1})):
+            steps.append({"op": "svd_truncated", "in": ["x"], "out": [f"tu{k}", f"ts{k}", f"tv{k}"], "args": a})
+        steps.append({"op": "norm", "in": ["x"], "out": ["nx"], "args": {}})
+        steps.append({"op": "multiply_diagonal", "in": ["vh", "s"], "out": ["svh"], "args": {"axis": 0}})
+        steps.append({"op": "multiply_diagonal", "in": ["v", "w"], "out": ["vw"], "args": {"axis": 1}})
+        progs.append({"tid": tids(), "inputs": {"x": x, "h": h}, "steps": steps})
+    return progs
